@@ -198,6 +198,30 @@ CLAIMED = {
             'interpolator, sigma_clip=None in the symbolic part; IDW-filled '
             'values of excluded meshes not claimed',
             TECH),
+    'C01': ('3/C01',
+            'BoundingBox.from_float is the minimal integer box of every real '
+            'rectangle with |coordinates|<4 (pixel-centre convention); '
+            'get_overlap_slices selects exactly the common pixels (None iff '
+            'none) for every integer box with corners in [-4,8] against '
+            'every image shape in [1,4]^2, with slices_small the shifted '
+            'slices_large; union/intersection/shape/extent/center equal '
+            'their set definitions; _calc_extents of ellipse and rectangle '
+            'are exactly the x/y support of the rotated shape for all sizes '
+            'and rotations (NRA lemmas); to_mask hands the kernels the '
+            'bbox edges recentred on the aperture with the documented mode '
+            'translation and annulus = outer - inner on the same box; the '
+            'three *_overlap_single_subpixel kernels (transliterated from '
+            'the current .pyx text, cross-validated bit-for-bit against the '
+            'compiled kernels) return the fraction of sub-pixel centres '
+            'strictly inside the shape for symbolic pixel corner, sizes and '
+            'rotation, subpixels 1..3; cached bbox/edges follow attribute '
+            're-assignment.',
+            'reals for floats (float64 sliver of from_float outside); exact '
+            'kernels: arc-area correctness (asin) not addressed, so "sums '
+            'to the analytic area" and weights in [0,1] for exact masks are '
+            'NOT claimed; Cython absent: .pyx analysed via validated '
+            'transliteration',
+            TECH + '; z3 NRA lemmas for the geometric side conditions'),
 }
 
 NOT_YET = {}
